@@ -8,6 +8,7 @@ import Tickit.Proof.LifeMouse
 import Tickit.Proof.LifeTopSw
 import Tickit.Proof.LifeTop
 import Tickit.Proof.LifeTopEnd
+import Tickit.Proof.LifeFrames
 import Tickit.Gen.Life
 /-
   Property C08 — no API history touches freed or foreign memory, and everything is released.
@@ -259,12 +260,33 @@ theorem handlers_counterexample : ¬ no_ub_handlers_full := by
   LifeMouse.lean (`runBinds_keep`, `keyLoop_keep`, `handleKeyBody_keep`, ...) redone over it.  For mouse events the
   discipline fails exactly where a claim is returned past the frame of the claiming window's parent. -/
 
-/-- OPEN (statement only, no counterexample known; covered by correspondence: generator families `handlers`,
-    `foreign`): key events delivered to window handlers with **any** actions - `tickit_window_unref` of their own window,
-    of ancestors, of any other window included. -/
-def no_ub_key_handlers_unref : Prop :=
-  ∀ (ops : List Op) (st : St), SInv .none st → (∀ op ∈ ops, op.plain = true ∨ op.penEvent = true ∨ op = .key) →
+/-- **no_ub with key handlers that drop references**: for every history of operations that deliver no event, `bind` of
+    key handlers with **any** actions - `tickit_window_unref` of their own window, of ancestors, of the root window, of
+    any other window included - and key events, nothing is touched after it has been freed and the invariant holds
+    again afterwards.  The proof (Proof/LifeFrames.lean) carries the references the frames of `_handle_key` hold as
+    part of what the library holds: every live window's count is exactly the application's tally plus the frames'
+    references, a window a frame holds is alive, and a frame that holds a child holds its parent (the stack
+    discipline); a destroy cascade a handler starts begins at a window no frame holds, and whatever it frees or drops
+    lies below that window (`Casc.reach`), hence is held by no frame: every dropped child is held by the application,
+    the tally follows the count, and every frame finds its windows alive when it gives its references back - the last
+    of which may destroy the window, no child of it being held then. -/
+theorem no_ub_key_handlers_unref : ∀ (ops : List Op) (st : St), SInv .none st →
+    (∀ op ∈ ops, op.plain = true ∨ op.penEvent = true ∨ op = .key) →
     ∃ st', runOps extracted st ops = .ok st' ∧ SInv .none st'
+  | [], st, inv, _ => ⟨st, rfl, inv⟩
+  | op :: rest, st, inv, h => by
+    have hrest : ∀ o ∈ rest, o.plain = true ∨ o.penEvent = true ∨ o = .key := fun o ho => h o (by simp [ho])
+    rcases h op (by simp) with hp | hpe | hk
+    · obtain ⟨st1, r, hs, inv1⟩ := step_plain_ok extracted_repaired inv op hp (fun _ _ _ _ => ⟨rfl, rfl⟩)
+      obtain ⟨st2, hr, inv2⟩ := no_ub_key_handlers_unref rest st1 inv1 hrest
+      exact ⟨st2, by unfold runOps; rw [hs]; exact hr, inv2⟩
+    · obtain ⟨st1, r, hs, inv1, _⟩ := step_pen_ok extracted_repaired inv op hpe
+      obtain ⟨st2, hr, inv2⟩ := no_ub_key_handlers_unref rest st1 inv1 hrest
+      exact ⟨st2, by unfold runOps; rw [hs]; exact hr, inv2⟩
+    · subst hk
+      obtain ⟨st1, r, hs, inv1⟩ := step_key_any extracted_repaired inv Ghost.none_covers
+      obtain ⟨st2, hr, inv2⟩ := no_ub_key_handlers_unref rest st1 inv1 hrest
+      exact ⟨st2, by unfold runOps; rw [hs]; exact hr, inv2⟩
 
 /-- OPEN (statement only): key and mouse events delivered to window handlers with any actions, provided that no mouse
     handler claims the event (the case in which handlers claim and all handlers free nothing is
@@ -425,6 +447,23 @@ theorem all_released (lines cols : Int) (mock : Bool) (ops : List Op) (h : Plain
 theorem all_released_handlers_keeping (lines cols : Int) (mock : Bool) (ops : List Op) (h : EventHistory ops) :
     ∃ st, runOps extracted {} (.newTerm lines cols mock :: ops ++ [.«end»]) = .ok st ∧ anythingLeft st = false := by
   obtain ⟨st1, hr, inv1, _⟩ := no_ub_handlers_keeping ops _ (SInv.init lines cols rfl rfl) (keepingHandlers_init lines cols) h
+  obtain ⟨st2, hd, _, hleft⟩ := drop_all_never_fails st1 inv1
+  refine ⟨st2, ?_, hleft⟩
+  have h0 : runOps extracted {} (.newTerm lines cols mock :: ops) = .ok st1 := by
+    unfold runOps step
+    exact hr
+  rw [show (Op.newTerm lines cols mock :: ops ++ [.«end»]) = (Op.newTerm lines cols mock :: ops) ++ [.«end»] from rfl]
+  rw [runOps_append extracted (.newTerm lines cols mock :: ops) [.«end»] {} st1 h0]
+  unfold runOps step
+  simp only [hd, bind_ok, pure_ok]
+  rfl
+
+/-- Key handlers with any actions (`no_ub_key_handlers_unref`): once the application has dropped every reference nothing
+    is left. -/
+theorem all_released_key_handlers_unref (lines cols : Int) (mock : Bool) (ops : List Op)
+    (h : ∀ op ∈ ops, op.plain = true ∨ op.penEvent = true ∨ op = .key) :
+    ∃ st, runOps extracted {} (.newTerm lines cols mock :: ops ++ [.«end»]) = .ok st ∧ anythingLeft st = false := by
+  obtain ⟨st1, hr, inv1⟩ := no_ub_key_handlers_unref ops _ (SInv.init lines cols rfl rfl) h
   obtain ⟨st2, hd, _, hleft⟩ := drop_all_never_fails st1 inv1
   refine ⟨st2, ?_, hleft⟩
   have h0 : runOps extracted {} (.newTerm lines cols mock :: ops) = .ok st1 := by
